@@ -675,7 +675,7 @@ impl<'a, T: Serializable> MemoryMapped<'a> for MappedSlice<'a, T> {
         }
         let slice: &[u64] = map.as_ref();
         let len = slice[offset] as usize;
-        if offset + 1 + len * T::elements() > map.len() {
+        if len.checked_mul(T::elements()).map_or(true, |elements| elements > map.len() - offset - 1) {
             return Err(Error::new(ErrorKind::UnexpectedEof, "The file is too short"));
         }
         let source: &[u64] = &slice[offset + 1 ..];
@@ -774,7 +774,7 @@ impl<'a> MemoryMapped<'a> for MappedBytes<'a> {
         }
         let slice: &[u64] = map.as_ref();
         let len = slice[offset] as usize;
-        if offset + 1 + bits::bytes_to_words(len) > map.len() {
+        if len > (map.len() - offset - 1) * bits::WORD_BYTES {
             return Err(Error::new(ErrorKind::UnexpectedEof, "The file is too short"));
         }
         let source: &[u64] = &slice[offset + 1 ..];
@@ -861,7 +861,7 @@ impl<'a> MemoryMapped<'a> for MappedStr<'a> {
         }
         let slice: &[u64] = map.as_ref();
         let len = slice[offset] as usize;
-        if offset + 1 + bits::bytes_to_words(len) > map.len() {
+        if len > (map.len() - offset - 1) * bits::WORD_BYTES {
             return Err(Error::new(ErrorKind::UnexpectedEof, "The file is too short"));
         }
         let source: &[u64] = &slice[offset + 1 ..];
